@@ -96,13 +96,13 @@ def shape(prog, val, depth=0, via=()):
     return None, "result is %s, not a fold" % show(val)[:80]
 
 
-def element_outputs(prog, F):
+def element_outputs(prog, F, inline=None):
     """What a per-element converter F(collection) -> Vec puts into its result: list of (value term, drop?) over
     (a) `push` calls on its paths (loop form), (b) the returns of the closure of `iter().map(c).collect()` /
     `iter().filter_map(c).collect()` (iterator form; None = element dropped).  Second result: reason when the
     form is not understood."""
     outs = []
-    ps = Walker(F, max_visits=2).paths()
+    ps = Walker(F, max_visits=2, inline=inline).paths()
     for p in ps:
         for e in p.calls():
             if e["callee"].endswith("::push"):
@@ -124,7 +124,8 @@ def element_outputs(prog, F):
     if clo[0] != "closure" or body_of(prog, clo[1]) is None:
         return [], "maps with %s" % show(clo)[:60]
     fm = x[1].endswith("::filter_map")
-    for p in Walker(body_of(prog, clo[1]), max_visits=2).paths():
+    # the closure's element parameter stays ("param", 2, ..); its captures resolve to the enclosing function's terms
+    for p in Walker(body_of(prog, clo[1]), max_visits=2).paths(init_env={1: clo}):
         if p.end != "return":
             continue
         v = strip(p.ret)
@@ -137,3 +138,48 @@ def element_outputs(prog, F):
                 return [], "filter_map closure returns %s" % show(v)[:60]
         outs.append(v)
     return outs, None
+
+
+def element_map(prog, F, inline=None):
+    """How a function F(collection, ..) -> Vec maps elements: {"pairs": [(value term, is_elem)], "coll": collection term,
+    "err": reason or None}.  `is_elem(t)` tells whether term t is the element being processed (the loop variable of
+    `for x in coll { out.push(f(x)) }`, or the closure parameter of `coll.into_iter().map(|x| f(x)).collect()`);
+    only forward, complete iterations over one collection are accepted."""
+    import iters
+    ps = Walker(F, max_visits=2, inline=inline).paths()
+    pairs = []
+    colls = set()
+    for p in ps:
+        for e in p.calls():
+            if e["callee"].endswith("::push"):
+                def is_elem(t, _p=p):
+                    r = iters.resolve(t)
+                    if r is not None and r[0] == "elem" and r[3] == 0:
+                        colls.add(r[1])
+                        return True
+                    return False
+                pairs.append((strip(e["args"][1]), is_elem))
+    if pairs:
+        return {"pairs": pairs, "colls": colls, "err": None, "form": "loop"}
+    rets = [strip(p.ret) for p in ps if p.end == "return"]
+    if len(rets) != 1:
+        return {"pairs": [], "colls": colls, "err": "no push and %d returning paths" % len(rets)}
+    r = rets[0]
+    if not (r[0] == "call" and r[1].endswith("::collect") and r[2]):
+        return {"pairs": [], "colls": colls, "err": "result is %s" % show(r)[:80]}
+    x = strip(r[2][0])
+    if not (x[0] == "call" and x[1].endswith("::map") and len(x[2]) == 2):
+        return {"pairs": [], "colls": colls, "err": "collects %s" % show(x)[:80]}
+    lay = iters.layout(x[2][0])
+    clo = strip(x[2][1])
+    if lay is None or lay[0] != "elem" or lay[2] != 0:
+        return {"pairs": [], "colls": colls, "err": "maps over %s" % show(x[2][0])[:80]}
+    colls.add(lay[1])
+    if clo[0] != "closure" or body_of(prog, clo[1]) is None:
+        return {"pairs": [], "colls": colls, "err": "maps with %s" % show(clo)[:60]}
+    cb = body_of(prog, clo[1])
+    for p in Walker(cb, max_visits=2, inline=inline).paths(init_env={1: clo}):
+        if p.end != "return":
+            continue
+        pairs.append((strip(p.ret), lambda t: strip(t)[0] == "param" and strip(t)[1] == 2))
+    return {"pairs": pairs, "colls": colls, "err": None, "form": "map"}
